@@ -502,6 +502,7 @@ func (g *Generator) genAttributeStringOctetsConcat(w io.Writer, attr *dictionary
 	p(w, `		})`)
 	p(w, `		value = value[n:]`)
 	p(w, `	}`)
+	p(w, `	p.Attributes.Del(`, ident, `_Type)`)
 	p(w, `	p.Attributes = append(p.Attributes, attrs...)`)
 	p(w, `	return`)
 	p(w, `}`)
@@ -526,6 +527,7 @@ func (g *Generator) genAttributeStringOctetsConcat(w io.Writer, attr *dictionary
 	p(w, `		})`)
 	p(w, `		value = value[n:]`)
 	p(w, `	}`)
+	p(w, `	p.Attributes.Del(`, ident, `_Type)`)
 	p(w, `	p.Attributes = append(p.Attributes, attrs...)`)
 	p(w, `	return`)
 	p(w, `}`)
